@@ -11,6 +11,8 @@ if len(sys.argv) <= 1:
     subprocess.check_call(["rsync", "-rlpc", "--delete", "--exclude", "/target", "--exclude", ".git", "/repo/", src + "/"])
 a = miragg.Agg("", src, mirsmt.Obligations())
 bad = 0
+# recipes that DO reproduce on the unchanged tree because they demonstrate a recorded known finding (known_findings.json)
+KNOWN = {"mirflow.replay_duplicate_names"}
 recipes = []
 for mod in (mirblocks, mirflow, mirpaths, mirload, mirquery, mirorder):
     for name, f in inspect.getmembers(mod, inspect.isfunction):
@@ -29,6 +31,8 @@ for name, f in recipes:
     unran = [c for c in r.get("cases", []) if c.get("observed") is None] if isinstance(r.get("cases"), list) else []
     note = r.get("note")
     status = "CLEAN" if not rep and not unran and not note else "NOT-CLEAN"
-    bad += status != "CLEAN"
+    if name in KNOWN:
+        status = "KNOWN-FINDING" if rep else "NOT-CLEAN (known finding no longer reproduces: update known_findings.json)"
+    bad += status not in ("CLEAN", "KNOWN-FINDING")
     print(status, name, (str(r.get("mismatches"))[:200] if rep else ""), (f"{len(unran)} cases did not run" if unran else ""), note or "")
 sys.exit(1 if bad else 0)
